@@ -2,6 +2,7 @@ import Enc.Model.Proto
 import Enc.Model.ProtoTo
 import Enc.Spec.Protobuf
 import Enc.Spec.Known
+import Enc.Driver.ProtoScan
 /-! line-protocol handlers, area `proto`. -/
 namespace Enc.Driver.Proto
 open Enc
@@ -91,6 +92,6 @@ def handle (op : String) (args : List String) : Option (String × String × Stri
     let ty ← Ty.parse ty
     let b ← fromHex h
     pure (showDec ty (Model.Proto.unmarshal ty b), "-", "")
-  | _, _ => none
+  | op, args => Driver.ProtoScan.handle op args     -- proto.scan, proto.scanerr, proto.rawvalue, proto.tag
 
 end Enc.Driver.Proto
